@@ -629,7 +629,7 @@ class C33(Prop):
 
     # ---- generation
     def gen(self, rng, tier):
-        n = {'quick': 40, 'thorough': 250, 'search': 120}.get(tier, 40)
+        n = {'quick': 40, 'thorough': 200, 'search': 120}.get(tier, 40)
         n_in = 2 if tier == 'quick' else 3
         for j in range(n):
             base = fir.gen_program(rng, GEN_CFG)
@@ -638,7 +638,7 @@ class C33(Prop):
             gf = tier == 'thorough' and j % 4 == 0
             regions, _ = find_regions(prog)
             yield Case([A('outline'), prog, inputs, A('gf' if gf else 'nogf')], stream='outline', nontrivial=bool(regions))
-        n_ext = {'quick': 6, 'thorough': 30, 'search': 12}.get(tier, 6)
+        n_ext = {'quick': 6, 'thorough': 24, 'search': 12}.get(tier, 6)
         for j in range(n_ext):
             src, ref = extract_source(rng)
             yield Case([A('extract'), src, [ref], A('file' if j % 6 == 5 else 'mod')], stream='extract')
